@@ -5,26 +5,10 @@
 
 package storage
 
-//@ -- ═════════ key space: CUSTODIANUPDATE | be64(timestamp) ═════════
-//@ -- ASSUMED like the rest of the key space (argued from the constructor graphCustodianUpdateKey): fixed width, no other prefix of
-//@ -- badger_graph.go is an initial segment of "CUSTODIANUPDATE" or extends it, byte order of the big-endian suffix == numeric order.
-//@ uninterp CustKeyId(t mathint) mathint
-//@ axiom forall t mathint :: {CustKeyId(t)} 0 <= t && t < 18446744073709551616 ==> keykind(CustKeyId(t)) == 21 && keynum(CustKeyId(t)) == t &&
-//@     badger.keypfx(CustKeyId(t), strkey(graphPrefixCustodianUpdate)) == 0
-//@ axiom forall x, y mathint :: {badger.keylt(CustKeyId(x), CustKeyId(y))} 0 <= x && x < 18446744073709551616 && 0 <= y && y < 18446744073709551616 ==>
-//@     (badger.keylt(CustKeyId(x), CustKeyId(y)) <==> x < y)
+//@ -- key space of the custodian records (kind 15, CustKeyId): zz_contracts_keyspace_verif.go
 //@ spec IsCustKey(k mathint) bool = k == CustKeyId(keynum(k)) && 0 <= keynum(k) && keynum(k) < 18446744073709551616
 //@ -- CustAt(t, ts): value id (the 32 bytes of a transaction hash) of the custodian record at timestamp ts, 0 = none
 //@ spec CustAt(t badger.Txn, ts mathint) mathint = badger.kvget(t, CustKeyId(ts))
-
-//@ assume func graphCustodianUpdateKey
-//@   modifies nothing
-//@   ensures fresh(result) && len(result) > 0 && kvkey(result) == CustKeyId(ts)
-//@ -- graphCustodianAccountTimestamp slices key[15:] and reads 8 bytes: it panics on anything shorter than a custodian key
-//@ assume func graphCustodianAccountTimestamp
-//@   requires [cust-key] IsCustKey(kvkey(key))
-//@   modifies nothing
-//@   ensures result == keynum(kvkey(key))
 
 //@ -- ═════════ the deep copy handed to callers ═════════
 //@ -- cloneCustodianUpdate: a NEW request with the same content (every pointer-held part copied: custodian, signature, nodes and their
